@@ -142,21 +142,19 @@ impl Url {
             Position::AfterUsername => self.username_end as usize,
 
             Position::BeforePassword => {
-                if self.has_authority() && self.byte_at(self.username_end) == b':' {
+                if self.password().is_some() {
                     self.username_end as usize + ":".len()
                 } else {
-                    debug_assert!(self.username_end == self.host_start);
                     self.username_end as usize
                 }
             }
 
             Position::AfterPassword => {
-                if self.has_authority() && self.byte_at(self.username_end) == b':' {
+                if self.password().is_some() {
                     debug_assert!(self.byte_at(self.host_start - "@".len() as u32) == b'@');
                     self.host_start as usize - "@".len()
                 } else {
-                    debug_assert!(self.username_end == self.host_start);
-                    self.host_start as usize
+                    self.username_end as usize
                 }
             }
 
